@@ -124,7 +124,13 @@ func (s *Store) Await(timeout time.Duration) error {
 		}
 
 		// wait for next future to complete
-		err := next.Wait(deadline.Sub(time.Now()))
+		// check deadline, a non-positive timeout would make Wait block forever
+		remaining := deadline.Sub(time.Now())
+		if remaining <= 0 {
+			return ErrTimeout
+		}
+
+		err := next.Wait(remaining)
 		if err != nil {
 			return err
 		}
